@@ -780,6 +780,53 @@ package getoptions
 //@     invariant sug.complete {C17}: forall q string :: (q in $seen) && q != name ==> inseq(q, suggestions)
 //@     invariant sug.sound {C17}: forall i int :: 0 <= i && i < len(suggestions) ==> (suggestions[i] in parent.ChildCommands) && suggestions[i] != name
 
+// Modifier constructors: they only build the closure that is verified above against the ModifyFn contract.
+//@ func (*GetOpt).Alias
+//@   props C06 C19
+//@   allocates []string
+//@   modifies
+//@   ensures result != nil
+//@ func (*GetOpt).Description
+//@   props C18 C19
+//@   allocates string
+//@   modifies
+//@   ensures result != nil
+//@ func (*GetOpt).SetCalled
+//@   props C06 C19
+//@   allocates bool
+//@   modifies
+//@   ensures result != nil
+//@ func (*GetOpt).Required
+//@   props C11 C19
+//@   allocates string, []string
+//@   modifies
+//@   ensures result != nil
+//@ func (*GetOpt).GetEnv
+//@   props C12 C19
+//@   allocates string
+//@   modifies
+//@   ensures result != nil
+//@ func (*GetOpt).ArgName
+//@   props C18 C19
+//@   allocates string
+//@   modifies
+//@   ensures result != nil
+//@ func (*GetOpt).ValidValues
+//@   props C17 C19
+//@   allocates []string
+//@   modifies
+//@   ensures result != nil
+//@ func (*GetOpt).SuggestedValues
+//@   props C17 C19
+//@   allocates []string
+//@   modifies
+//@   ensures result != nil
+//@ func (*GetOpt).SuggestedValuesFn
+//@   props C17 C19
+//@   allocates option.ValueCompletionsFn
+//@   modifies
+//@   ensures result != nil
+
 // ---- typed definers (generated by /verif/tools/gen_definer_contracts.py; one uniform contract per kind) ----
 // A definer registers a fresh record under the name, wires the caller's variable as its receiver, writes the
 // default once, and then applies the modifiers. It may panic only on an invalid definition.
